@@ -398,14 +398,45 @@ fn check_preserving(um0: &UserModel, um1: &UserModel, s0: &Snap, s1: &Snap, e: &
     None
 }
 
+/// The user-level move skips hidden lines in its landing zone (a UI rule of
+/// UserModel::move_rows_action / move_columns_action, not this property's subject): the RS
+/// model is applied with the displacement the call really performs.
+fn effective_delta(um: &UserModel, e: &Edit) -> i32 {
+    if !matches!(e.kind, EditKind::MoveRows | EditKind::MoveCols) {
+        return e.delta;
+    }
+    let Ok(ws) = um.get_model().workbook.worksheet(e.sheet) else { return e.delta };
+    let hidden = |x: i32| if e.rows() { ws.is_row_hidden(x).unwrap_or(false) } else { ws.is_column_hidden(x).unwrap_or(false) };
+    let mut d = e.delta;
+    if e.delta > 0 {
+        for x in e.at + e.count..=e.at + e.count + e.delta {
+            if hidden(x) {
+                d += 1;
+            }
+        }
+    } else {
+        for x in e.at + e.delta..e.at {
+            if hidden(x) {
+                d -= 1;
+            }
+        }
+    }
+    d
+}
+
 fn run_case(case: &Case, st: &mut Stats) -> Option<Fail> {
     let mut um = build(case)?;
     let um0 = build(case)?; // an untouched twin for parsing "before" formulas
-    let e = &case.edit;
+    let applied = &case.edit;
+    let effective = Edit { delta: effective_delta(&um0, applied), ..applied.clone() };
+    if effective.delta != applied.delta {
+        st.count("moves_with_hidden_lines_in_landing_zone");
+    }
+    let e = &effective;
     let s0 = snap::snapshot(&um, SnapOpts::FULL);
-    let r = guarded(|| ops::apply(&mut um, &e.op()));
+    let r = guarded(|| ops::apply(&mut um, &applied.op()));
     match r {
-        Err(p) => return Some(fail("panic", e, "", format!("{:?} panicked: {p}", e.op()))),
+        Err(p) => return Some(fail("panic", e, "", format!("{:?} panicked: {p}", applied.op()))),
         Ok(Err(_)) => {
             st.count("edit_refused");
             return None;
@@ -451,7 +482,13 @@ fn gen_setup(rng: &mut StdRng, nsheets: u32, with_hazards: bool) -> Vec<Op> {
     for _ in 0..n {
         let sh = rng.gen_range(0..nsheets);
         let (r, c) = (rng.gen_range(1..=9), rng.gen_range(1..=7));
-        let op = match rng.gen_range(0..20) {
+        let op = match rng.gen_range(0..24) {
+            // hidden lines keep their stored size; a sheet-wide style followed by per-column
+            // edits leaves column records that span several columns
+            20 => Op::ColHidden(sh, c, c, true),
+            21 => Op::RowHidden(sh, r, r, true),
+            22 if v.is_empty() && rng.gen_bool(0.15) => Op::Style(sh, 1, 1, 16384, 1048576, "font.u".into(), "true".into()),
+            23 => Op::ColWidth(sh, c, (c + rng.gen_range(0..3)).min(8), 77.0),
             0..=4 => Op::Input(sh, r, c, (*crate::util::pick(rng, &["7", "-2.5", "hello", "'123", "TRUE", "10%", "$5.50", "2024-03-05", "1,234", "1e3", "#N/A", " padded ", "123456789012345", "0.1"])).to_string()),
             5..=9 => Op::Input(sh, r, c, ops::acyclic_formula(rng, &cfg, r)),
             10 => {
